@@ -31,14 +31,24 @@ Calls == {"Add", "Prepend", "Remove", "Replace", "RemoveName"}
 
 \* registers: 1 = line being explained, 5 = the Message before it, 2 = calls whose reported status differs from the documented one (bytes agree),
 \* 3 / 4 = Vec / PyEcho lines inside the repertoire of message.py (parsing / native construction): vacuity guards for Common,
-\* 6 / 7 = lines on which the tolerated finding F38 / F39 applied AND the leg it concerns disagreed (the finding reproduced)
-TraceInit == m = Empty /\ l = 1 /\ TLCSet(1, 1) /\ TLCSet(2, 0) /\ TLCSet(3, 0) /\ TLCSet(4, 0) /\ TLCSet(5, Empty) /\ TLCSet(6, 0) /\ TLCSet(7, 0)
+\* 6 / 7 / 8 / 9 = lines on which the tolerated finding F38 / F39 / F45mini / F45micro applied AND the leg it concerns disagreed (the finding reproduced)
+TraceInit == m = Empty /\ l = 1 /\ TLCSet(1, 1) /\ TLCSet(2, 0) /\ TLCSet(3, 0) /\ TLCSet(4, 0) /\ TLCSet(5, Empty) /\ TLCSet(6, 0) /\ TLCSet(7, 0) /\ TLCSet(8, 0) /\ TLCSet(9, 0)
+Dev45mini(mm) == "F45mini" \in Deviations /\ F45mini(mm)
+Dev45micro(mm) == "F45micro" \in Deviations /\ F45micro(mm)
 Dev38(mm) == "F38" \in Deviations /\ F38(mm)
 Dev39(mm) == "F39" \in Deviations /\ F39(mm)
 
 Same(ln, mm) == ln.b = Flatten(mm) /\ ln.z = FlattenedSize(mm)
-Agree(o, mm) == /\ o.mini_u = 1 /\ o.mini_b = 1 /\ o.micro_b = 1
-                /\ ~Dev38(mm) => o.micro_u = 1
+\* ln.r holds, for a leg that answered with OTHER bytes, those bytes (absent otherwise)
+Reply(ln, leg) == IF "r" \in DOMAIN ln /\ leg \in DOMAIN ln.r THEN ln.r[leg] ELSE <<>>
+MicroLeg(ln, mm, leg) == \/ ln.o[leg] = 1
+                         \/ /\ Dev45micro(mm) /\ ~Dev38(mm) /\ Reply(ln, leg) = Flatten(DropZeroRaw(mm))      \* the known finding, and nothing else, explains the bytes
+                            /\ TLCSet(9, TLCGet(9) + 1)
+                         \/ (leg = "micro_u" /\ Dev38(mm))
+AgreeLn(ln, mm) == LET o == ln.o IN
+                /\ ~Dev45mini(mm) => (o.mini_u = 1 /\ o.mini_b = 1)
+                /\ (Dev45mini(mm) /\ (o.mini_u # 1 \/ o.mini_b # 1)) => TLCSet(8, TLCGet(8) + 1)
+                /\ MicroLeg(ln, mm, "micro_u") /\ MicroLeg(ln, mm, "micro_b")
                 /\ (Dev38(mm) /\ o.micro_u # 1) => TLCSet(6, TLCGet(6) + 1)
                 /\ (Common("python", mm) /\ ~Dev39(mm)) => o.py_u = 1
                 /\ (Common("pynative", mm) /\ ~Dev39(mm)) => o.py_b = 1
@@ -54,7 +64,7 @@ TCall   == /\ TraceLog[l].op \in Calls
               /\ m' = r.m
 TVec    == /\ TraceLog[l].op = "Vec"
            /\ LET ln == TraceLog[l] IN
-              /\ WellFormed(ln.m) /\ Same(ln, ln.m) /\ Agree(ln.o, ln.m)
+              /\ WellFormed(ln.m) /\ Same(ln, ln.m) /\ AgreeLn(ln, ln.m)
               /\ "s" \in DOMAIN ln => Build(ln.s) = ln.m       \* the (not append-only) script the C++ Message was built by leaves this content
               /\ Common("python", ln.m) => TLCSet(3, TLCGet(3) + 1)
               /\ Common("pynative", ln.m) => TLCSet(4, TLCGet(4) + 1)
@@ -80,9 +90,9 @@ Track == TLCSet(1, l) /\ TLCSet(5, m)
 Expect(ln, mm) == IF ln.op \in Calls THEN LET r == ApplyStep(mm, ln) IN [op |-> ln.op, spec_b |-> Flatten(r.m), spec_z |-> FlattenedSize(r.m), spec_ok |-> r.ok, code_b |-> ln.b, code_z |-> ln.z]
                   ELSE IF ln.op = "New" THEN [op |-> ln.op, spec_b |-> Flatten([what |-> ln.w, fields |-> <<>>]), code_b |-> ln.b]
                   ELSE IF ln.op \in {"Vec", "PyEcho"} THEN [op |-> ln.op, wellformed |-> WellFormed(ln.m), script_builds_content |-> IF "s" \in DOMAIN ln THEN Build(ln.s) = ln.m ELSE TRUE, spec_b |-> Flatten(ln.m), spec_z |-> FlattenedSize(ln.m), code_b |-> ln.b,
-                                                           python |-> Common("python", ln.m), pynative |-> Common("pynative", ln.m), f38 |-> F38(ln.m), f39 |-> F39(ln.m), outcome |-> IF "o" \in DOMAIN ln THEN ln.o ELSE ln.same]
+                                                           python |-> Common("python", ln.m), pynative |-> Common("pynative", ln.m), f38 |-> F38(ln.m), f39 |-> F39(ln.m), f45mini |-> F45mini(ln.m), f45micro |-> F45micro(ln.m), outcome |-> IF "o" \in DOMAIN ln THEN ln.o ELSE ln.same]
                   ELSE IF ln.op = "Frames" THEN [op |-> ln.op, spec_stream |-> FrameStream(ln.bs), code_stream |-> ln.st, outcome |-> ln.o]
                   ELSE [op |-> ln.op]
-Report == /\ PrintT(<<"maxline", TLCGet(1), "of", N, "statusdiffers", TLCGet(2), "pyok", TLCGet(3), "pynative", TLCGet(4), "F38", TLCGet(6), "F39", TLCGet(7)>>)
+Report == /\ PrintT(<<"maxline", TLCGet(1), "of", N, "statusdiffers", TLCGet(2), "pyok", TLCGet(3), "pynative", TLCGet(4), "F38", TLCGet(6), "F39", TLCGet(7), "F45mini", TLCGet(8), "F45micro", TLCGet(9)>>)
           /\ TLCGet(1) <= N => PrintT("@@" \o ToJson([line |-> TLCGet(1)] @@ Expect(TraceLog[TLCGet(1)], TLCGet(5))))
 =============================================================================
